@@ -29,6 +29,23 @@ fn mkcls(x) { #[constructor(new)] class Holder { fn get(self) { return x; } #[st
 fn mksub(base) { #[derive(base), constructor(new)] class Sub { fn own(self) { return 1; } fn viasuper(self) { return super.get(); } } return Sub; }
 fn mksub2(base) { #[derive(base), constructor(new)] class Sub2 { fn own(self) { return 2; } } return Sub2; }
 fn miter(u) { var it = [[u], [u + 1], [u + 2]].iter(); it.next(); return it; }
+fn evict(u) { var k = 0; while k < 10 { var r = (u + 100 + k)..(u + 101 + k); k = k + 1; } return k; }
+fn mrit(u) { var it = (u..(u + 4)).iter(); it.next(); evict(u); return it; }
+fn upv(u) {
+  var a = [u]; var b = [u + 1];
+  { var f1 = || { return a; }; f1(); }
+  var f2 = || { return b; };
+  churn(2);
+  return f2;
+}
+fn upv2(u) {
+  var a = [u]; var b = [u + 1]; var c = [u + 2];
+  { var fa = || { return a; }; var fb = || { return b; }; fa(); fb(); }
+  var fc = || { return c; };
+  churn(1);
+  var fa2 = || { return a; };
+  return [fc(), fa2()];
+}
 fn keep2(a, b) { return a; }
 fn id3(a, b, c) { return [a, b, c]; }
 fn churn(n) {
@@ -64,6 +81,8 @@ TARGETS = {
     "boundmethod": ("mkinst({u}).sum", "{h}()", False),
     "iterator": ("miter({u})", "({h}.next(), {h}.next())", False),
     "range": ("({u}..({u} + 3))", "{h}", True),
+    # an iterator over a range that has meanwhile been evicted from the interpreter's range cache: only the iterator holds it
+    "range_iter_evicted": ("mrit({u})", "({h}.next(), {h}.next(), {h}.next(), {h}.next())", False),
     "fiber_new": ("Fiber.new(mkclo(({u}, [0])))", "{h}.call()", False),
     "fiber_susp": ("mkfib(({u}, [1]))", "{h}.call()", False),
     "fiber_fin": ("mkfin({u})", "{h}.has_finished()", False),
@@ -132,15 +151,10 @@ OPEN_ROOTS = {
                                       "  var get = f.call({H});", "  f = nil;", "  churn({n});", "  var l = get();", "  return {P};", "}}",
                                       'print(("ev", {g}, r{g}()));'],
 }
-OPEN_ROOTS.update({
-    # the captured variable's scope is left by an exception (unwinding must close the captured variable)
-    "capture_in_scope_left_by_exception": ["fn r{g}() {{", "  var get = nil;", "  try {{ var l = {H}; get = || {{ return l; }}; throw 1; }} catch e {{ churn(1); }}",
-                                           "  churn({n});", "  var l = get();", "  return {P};", "}}", 'print(("ev", {g}, r{g}()));'],
-    "capture_in_callee_left_by_exception": ["var get{g} = nil;", "fn t{g}() {{ var l = {H}; get{g} = || {{ return l; }}; var pad = [1]; throw pad; }}",
-                                            "fn r{g}() {{", "  try {{ t{g}(); }} catch e {{ churn(1); }}", "  churn({n});", "  var l = get{g}();", "  return {P};", "}}",
-                                            'print(("ev", {g}, r{g}()));'],
-}
-)
+# Not generated: a captured variable whose scope is left by an *exception* (unwinding truncates the stack without closing
+# captured variables, K-unwind-capture). The closure then reads whatever reuses the slot - the same wrong value under every
+# collection schedule, so it is a scoping defect (C06, not claimed), not a GC-safety one; generating it only made a third of
+# the reference runs end early.
 ROOTS.update(OPEN_ROOTS)
 GEN_ROOTS = sorted(ROOTS)
 
@@ -170,6 +184,8 @@ OPS = [
     '({u}, "x" + "{u}", [{u}, [{u}]]).iter().collect()',
     "type(mkinst({u})) == Inst",
     "mkctr({u})()",
+    "upv({u})()",
+    "upv2({u})",
     "{{[{u}].len(): ([{u}], [{u} + 1])}}",
     '("é" + "{u}" + "z").to_code_points()',
     '("q" + "{u}").iter().collect()',
@@ -220,7 +236,7 @@ def gen_ir(seed):
             gadgets.append(["op", rng.below(len(OPS)), u, rng.choice(["global", "fn", "fiber"])])
         else:
             gadgets.append(["failop", rng.below(len(FAIL_OPS)), u])
-    return {"gadgets": gadgets}
+    return {"gadgets": gadgets, "reset": rng.chance(0.15)}
 
 
 def render_gadget(g, gi):
@@ -275,6 +291,21 @@ def render(ir):
     return "\n".join(out) + "\n"
 
 
+AFTER_RESET = PRELUDE + """import "gcm";
+print(("ev", "after-reset", [[1], [2], [3]].iter().map(|x| { return [x, churn(1)]; }).collect(),
+       [[1], [2]].iter().filter(|x| { return churn(1) == 1; }).collect(), type(Error), gcm.get(), mkinst(7).sum(), churn(2)));
+"""
+
+
+def programs(ir):
+    """the scenario's program list: normally one program; with ir["reset"] the interpreter is reset (Vm::reset) after it and
+    a second program then uses the core library, a re-imported module and fresh allocations"""
+    progs = [{"kind": "snippet", "source": render(ir)}]
+    if ir.get("reset"):
+        progs += [{"kind": "reset"}, {"kind": "snippet", "source": AFTER_RESET}]
+    return progs
+
+
 def tape_hex(rng, rate, nbytes=4096):
     tape = bytearray(nbytes)
     for i in range(nbytes * 8):
@@ -302,8 +333,8 @@ class C01:
     LEVEL = "exploration"
     TIMEOUT = 40.0
     RULE = ("case = generated heap-shape program: 3-9 gadgets, each either a retention chain root -> e1..e4 -> target (19 edge kinds "
-            "x 17 target kinds x 20 root kinds; the chain is the only path to the target; allocation churn between building and "
-            "reading it back) or one of 39 operations that make the interpreter hold fresh unreferenced objects mid-operation "
+            "x 18 target kinds x 18 root kinds; the chain is the only path to the target; allocation churn between building and "
+            "reading it back) or one of 41 operations that make the interpreter hold fresh unreferenced objects mid-operation "
             "(10 of them failing, so that the error object is allocated meanwhile); every case is executed under never-collect, "
             "collect-at-every-allocation and a PRNG collection tape (rate 1/2, 1/8 or 1/64), all with quarantine. non-trivial = the "
             "always run reclaimed >= 1 object and the case has >= 1 chain; distinct = distinct program hash")
@@ -335,7 +366,7 @@ class C01:
             src = render(ir)
         except (ValueError, KeyError, IndexError) as e:
             return {"stats": stats, "nontrivial": False, "invalid": str(e)}
-        sc = dict(sc, programs=[{"kind": "snippet", "source": src}], tape=[], faults={},
+        sc = dict(sc, programs=programs(ir), tape=[], faults={},
                   fs={"gcm": {"source": GCM, "reads": []}})
         stats.inc("scenarios")
         for g in ir["gadgets"]:
@@ -355,13 +386,19 @@ class C01:
         if po:
             res["violation"] = {"class": po[0], "msg": "[never-collect] " + po[1]}
             return res
-        ref_events = ref["programs"][0]["events"]
-        ref_out = dict(ref["programs"][0]["outcome"])
-        ref_out.pop("messages", None) if False else None
+        def flat(hh):
+            evs, outs = [], []
+            for pi, pp in enumerate(hh["programs"]):
+                evs += [[pi] + [e_] for e_ in pp["events"]]
+                outs.append((pp["outcome"].get("ok"), pp["outcome"].get("err"), pp["outcome"].get("reset")))
+            return evs, outs
+        ref_events, ref_outs = flat(ref)
         stats.inc("events", len(ref_events))
         stats.inc("allocations", (ref.get("gc") or {}).get("allocs", 0))
-        if not ref["programs"][0]["outcome"].get("ok"):
+        if any(o_[1] for o_ in ref_outs):
             stats.inc("reference_run_ended_with_error")
+        if ir.get("reset"):
+            stats.inc("scenarios_with_reset")
         res["sample"] = {"source_tail": src[len(PRELUDE):], "reference_events": ref_events[:10]}
         for label, cfg in (("always", {"gc": {"mode": "always", "quarantine": True}}),
                            ("tape", {"gc": {"mode": "tape", "tape": sc.get("gc_tape", ""), "quarantine": True}})):
@@ -380,16 +417,14 @@ class C01:
                 v = {"class": "use-after-reclaim", "msg": "%d use(s) of reclaimed objects; first: %s" % (
                     gc["uar_count"], json.dumps(gc.get("uar", [])[:3]))}
             else:
-                ev = h["programs"][0]["events"]
+                ev, outs = flat(h)
                 if ev != ref_events:
                     i = next((j for j in range(min(len(ev), len(ref_events))) if ev[j] != ref_events[j]), min(len(ev), len(ref_events)))
                     v = {"class": "output-depends-on-collector", "msg": "event %d: never-collect %s, %s %s" % (
                         i, json.dumps(ref_events[i] if i < len(ref_events) else None)[:300], label, json.dumps(ev[i] if i < len(ev) else None)[:300])}
                 else:
-                    o1 = ref["programs"][0]["outcome"]
-                    o2 = h["programs"][0]["outcome"]
-                    if (o1.get("ok"), o1.get("err")) != (o2.get("ok"), o2.get("err")):
-                        v = {"class": "output-depends-on-collector", "msg": "outcome: never-collect %s, %s %s" % (json.dumps(o1)[:200], label, json.dumps(o2)[:200])}
+                    if outs != ref_outs:
+                        v = {"class": "output-depends-on-collector", "msg": "outcome: never-collect %s, %s %s" % (json.dumps(ref_outs)[:200], label, json.dumps(outs)[:200])}
             if v:
                 v["config"] = label
                 v["msg"] = "[%s] %s" % (label, v["msg"])
